@@ -1447,8 +1447,17 @@ func (f *fctx) assignedOuter(lists ...[]ast.Stmt) []types.Object {
 							}
 						}
 					}
-					if id, ok := x.Fun.(*ast.Ident); ok && id.Name == "delete" && len(x.Args) == 2 {
+					if id, ok := x.Fun.(*ast.Ident); ok && (id.Name == "delete" || id.Name == "copy") && len(x.Args) == 2 {
 						add(rootIdent(x.Args[0]))
+					}
+					// library calls that store through their first argument
+					if sel, ok := x.Fun.(*ast.SelectorExpr); ok && len(x.Args) >= 1 {
+						if fo, ok := f.t.info.Uses[sel.Sel].(*types.Func); ok && fo.Pkg() != nil {
+							switch fo.Pkg().Path() + "." + fo.Name() {
+							case "sort.Strings", "encoding/binary.PutUint16", "encoding/binary.PutUint32", "encoding/binary.PutUint64":
+								add(rootIdent(x.Args[0]))
+							}
+						}
 					}
 				}
 				return true
